@@ -1,6 +1,7 @@
 import G3D.Proofs.HashKey
 import G3D.Props.Classes
 import G3D.Proofs.SameSet
+import G3D.Proofs.HashSum
 /-! # C08 — equality is representation-independent and consistent with hashing
     `eqv` models `__eq__` (exact reading), `hashKey` models the tuple the CURRENT `__hash__` rounds and hashes,
     with every rounded float replaced by an exact injective representative (unit vectors as
@@ -73,4 +74,20 @@ theorem polyhedron_eq_of_reordered (B0 : Polyhedron) (hV : B0.Valid) (hloc : B0.
     B1.sameB B2 = true :=
   Polyhedron.mk?_reoriented_sameB B0 hV hloc F1 F2 input1 input2 hperm1 hrel1 hperm2 hrel2 B1 B2 h1 h2
 
+
+/-! ### the hash SUMS of the code, for an arbitrary point / plane / face hash -/
+/-- ConvexPolygon: the code hashes (Σ_points hash(p), a function of hash(plane)); whatever `hash(Point)` is, two Valid polygons
+    denoting the same point set get the same tuple — so `a == b` holds in the code and `hash(a) == hash(b)` -/
+theorem polygon_same_set_same_hash {κ : Type} (h : V3 → Int)
+    (hp : ((Int × Rat) × (Int × Rat) × (Int × Rat)) × (Int × Rat) → κ) (P Q : Polygon) (hP : P.Valid) (hQ : Q.Valid)
+    (hd : ∀ x, InHull P.pts x ↔ InHull Q.pts x) : P.hashTupleAbs h hp = Q.hashTupleAbs h hp :=
+  Polygon.hashTupleAbs_eq_of_same_hull h hp hP hQ hd
+/-- ConvexPolyhedron: (Σ_faces hash(face), Σ_vertices hash(vertex)) agree for equal bodies -/
+theorem polyhedron_equal_same_hash {κ : Type} (h : V3 → Int)
+    (hp : ((Int × Rat) × (Int × Rat) × (Int × Rat)) × (Int × Rat) → κ) (hf : Int × κ → Int) (A B : Polyhedron)
+    (hAf : ∀ f ∈ A.faces, f.Valid) (hBf : ∀ f ∈ B.faces, f.Valid)
+    (hAd : A.faces.Pairwise (fun f g => ¬ f.same g = true)) (hBd : B.faces.Pairwise (fun f g => ¬ f.same g = true))
+    (hAv : A.verts.Nodup) (hBv : B.verts.Nodup) (hs : A.sameB B = true) :
+    A.hashTupleAbs h hp hf = B.hashTupleAbs h hp hf :=
+  Polyhedron.hashTupleAbs_eq_of_sameB h hp hf hAf hBf hAd hBd hAv hBv hs
 end G3D.Props.C08
